@@ -1017,6 +1017,33 @@ struct StreamSim : Sim {
                 Env &e = *s.env;
                 LegacyScope legacy_scope(e, c.api == 2);
                 int bits = c.ks ? 256 : 128;
+                // 1 finalize in 32 through the family symbols or the deprecated API asks for a tag length other than 8 / 12 / 16 (outside the
+                // documented values; the isal_ wrappers refuse it): what is written then is not judged, the monitors are (C08 with a 16-byte
+                // buffer, C14, C18, C19)
+                uint64_t oddsel = mix64(s.p->seed, 0x7a90 + (uint64_t) ci * 8 + (uint64_t) c.epoch);
+                if (c.api != 1 && (oddsel & 31) == 5) {
+                        static const int odd[13] = { 1, 2, 3, 4, 5, 6, 7, 9, 10, 11, 13, 14, 15 };
+                        int tl = odd[(oddsel >> 8) % 13];
+                        uint8_t *tagb = e.mem.alloc(16, 1, (Place) (ci % 2), &e.hidden, "gcm tag out (16 bytes for an undocumented length)", R_OUTPUT);
+                        gcm_secrets(s, c);
+                        s.r->cov.hit("probe_gcm_finalize_with_undocumented_tag_length");
+                        {
+                                LegacyScope legacy2(e, c.api == 2);
+                                if (c.api == 2) {
+                                        SlotGuard sg;
+                                        sg.set(c.dec ? S.d_dec_fin[c.ks] : S.d_enc_fin[c.ks], c.dec ? S.dec_fin[c.ks][c.fam] : S.enc_fin[c.ks][c.fam]);
+                                        e.call(strfmt("isal_aes_gcm_%s_%d_finalize", c.dec ? "dec" : "enc", bits).c_str(), c.dec ? S.isal_dec_fin[c.ks] : S.isal_enc_fin[c.ks],
+                                               { U(c.key_data), U(c.ctx), U(tagb), (uint64_t) tl });
+                                } else
+                                        e.call(strfmt("_aes_gcm_%s_%d_finalize_%s", c.dec ? "dec" : "enc", bits, gcm_fams[c.fam]).c_str(),
+                                               c.dec ? S.dec_fin[c.ks][c.fam] : S.enc_fin[c.ks][c.fam], { U(c.key_data), U(c.ctx), U(tagb), (uint64_t) tl });
+                        }
+                        e.check_buf(tagb, "gcm finalize (undocumented tag length)");
+                        e.check_buf(c.ctx, "gcm finalize (undocumented tag length)");
+                        e.check_buf(c.key_data, "gcm finalize (undocumented tag length)");
+                        c.finalized = true;
+                        return;
+                }
                 uint8_t *tag = e.mem.alloc(c.tag_len, 1, (Place) (ci % 2), &e.hidden, "gcm tag out", R_OUTPUT);
                 gcm_secrets(s, c);
                 std::string nm;
